@@ -102,6 +102,12 @@ CONF = {
         "tiers": tiers(8, 1200, 16, 30000),
         "require_classes": ["refresh:manual", "refresh:none", "pty", "delay", "frame-near-height", "text-between-frames", "popped"],
     },
+    "C18": {
+        "rule": "cases = pop-completed scenarios: 1-8 bars finishing (complete, abort, abort with drop, remove-on-complete) in any order and in the same cycle, extender rows, text in between, no-pop bars, queued successors, byte buffers and ptys, manual refresh (exact frame model), injected auto refresh and a real ticker (final screen only); non-trivial = bars popped in >=2 different cycles and >=1 frame after the last pop (exact runs) or >=2 popped bars and >=4 frames; distinct by FNV-64 of the scenario JSON",
+        "assumptions": GO_ASSUME + SCHED_ASSUME + ["final screen = scrollback + screen of the VT emulator after the whole output", "open finding C18-popped-bar-cut-by-height is excluded from the generator by construction (ptys are made tall enough for all rows) and probed by its reproducer", "hangs are left to C01"],
+        "tiers": tiers(8, 2500, 16, 40000),
+        "require_classes": ["refresh:manual", "refresh:autoinj", "refresh:autort", "pty", "exact-model", "popped>=2", "same-cycle-pops", "nopop", "extender", "text"],
+    },
     "C05": {
         "rule": "cases = sequential scenarios (container config, 1-7 bar specs, program of add/incr/set/abort/priority/write/tick/cancel steps) drawn by rapid; non-trivial = >=3 frames and >=1 change of the displayed set between frames; distinct by FNV-64 of the scenario JSON",
         "assumptions": GO_ASSUME + SCHED_ASSUME + ["one output Write call = one frame (cwriter flushes its buffer with a single Write)", "exact frame model only for manual refresh, sequential client and queue length > number of bars; otherwise history invariants"],
